@@ -6,5 +6,9 @@ SPECS = [
                 ('_sqrt_relative_difference', ['S', 'S']),
                 ('_exp_relative_difference', ['S', 'S']),
                 ('_relative_log_difference_taylor', ['S', 'S']),
-                ('_relative_log_difference_no_tolerance_check', ['S', 'S'])]),
+                ('_relative_log_difference_no_tolerance_check', ['S', 'S']),
+                # round 3: the branching reference kernel and the two argsort-based kernels wired into log_symm / pow_symm
+                ('_relative_log_difference', ['S', 'S']),
+                ('_log_relative_difference', ['S', 'S']),
+                ('_pow_relative_difference', ['S', 'S', 'S'])]),
 ]
